@@ -146,7 +146,7 @@ def setup(c):
                      "(inval/needreload/gc/newcache/epochnm/updleader) interleaved with loc/locend/locid/range/batch/group/listids on the real "
                      "RegionCache; every lookup line carries the verdict of the property oracle evaluated on that side's own result "
                      "(containment, in-order gap-free cover, grouping, known region, no regression of the index) followed by the raw result; "
-                     "`dump` lines compare the ordered index and latestVersions; a quarter of the cases start with the directed hole family "
+                     "`dump` lines compare the ordered index and latestVersions; after every lookup and feedback op the by-id index invariant is evaluated on that side's own state (FAIL latest-index-missing:<id> when the newest held version of an id is not named by latestVersions); every 12th case is the right-derive family (splits after which the surviving id moves its start key, `epochraw <id> <regions…>` = OnRegionEpochNotMatch with an explicit region list in both orders, stale same-version / older-conf-version PD answers); a quarter of the cases start with the directed hole family "
                      "(3..6 regions, cache warmed over the whole key space, need-reload flag or invalidation on one or two MIDDLE regions, then "
                      "batch/range lookups spanning them, also with ranges starting inside the flagged region and under a stale PD view); "
                      "a third of the cases start with a directed family: the hole family or the boundary family (every boundary key of a 3..6 region layout looked up "
